@@ -30,7 +30,10 @@ def _num(t):
 
 
 class Abstractor:
-    def __init__(self, nonneg_atoms=()):
+    def __init__(self, nonneg_atoms=(), input_atoms=None):
+        # input_atoms: ids of the pure input variables; only those may be absorbed into an abstract
+        # variable (defined variables such as sqrt!k carry constraints of their own and stay atoms)
+        self.inputs = None if input_atoms is None else set(input_atoms)
         self.cache = {}
         self.forms = []      # list of (keys tuple, unit vector dict, var, nonneg flag)
         self.nonneg = set(nonneg_atoms)
@@ -136,15 +139,19 @@ class Abstractor:
             l = self.lin(t)
             if l is not None:
                 atoms = [a for a in l if a is not None]
-                if len(atoms) >= 2:
+                absorb = [a for a in atoms if self.inputs is None or a in self.inputs]
+                if len(absorb) >= 2:
                     c = l.get(None, F(0))
-                    body = {a: v for a, v in l.items() if a is not None}
+                    body = {a: l[a] for a in absorb}
                     scale, u = self._var_for(body)
                     out = z3.RealVal(str(scale)) * u
+                    for a in atoms:
+                        if a not in body:
+                            out = out + z3.RealVal(str(l[a])) * self.atoms[a]
                     if c:
                         out = out + z3.RealVal(str(c))
                     return out
-                return t  # constants and single atoms stay
+                return t  # constants, single atoms and forms over defined variables stay
         ch = t.children()
         if not ch:
             return t
@@ -173,9 +180,9 @@ def _rebuild(t, new):
     return t.decl()(*new)
 
 
-def abstract_query(conds, neg, nonneg_atom_ids):
+def abstract_query(conds, neg, nonneg_atom_ids, input_atom_ids=None):
     """Return (list of abstract assertions) equisatisfiable-or-weaker... see module doc."""
-    ab = Abstractor(nonneg_atom_ids)
+    ab = Abstractor(nonneg_atom_ids, input_atom_ids)
     out = [ab.rewrite(c) for c in conds]
     out.append(ab.rewrite(neg))
     out.extend(ab.constraints)
